@@ -11,6 +11,7 @@ Helpers for `Props/C01All.lean`.
      `DeliveredDisplaced`; `FlightsFirst` (packet order) ⇒ `FirstFlights`
 -/
 import TLX.Props.C01Full
+import TLX.Props.C02File
 set_option autoImplicit false
 set_option linter.unusedSimpArgs false
 set_option linter.unusedVariables false
@@ -463,5 +464,202 @@ theorem tls12_meta_of_release (H : Crypto.Prims) (P : Prims) (L : SealLaws P) (k
   simp only [Session.run, List.foldl_cons] at hmerge ⊢
   rw [hmerge d, htr2, htr1]
   cases d <;> simp [dirPlain, Snd.get, legacySnd, Session.St.init]
+
+/-! ### C. the capture side -/
+
+section Capture
+open TLX.MainLoop TLX.Props.C01File TLX.Spec.TlsCapture TLX.Lemmas.C01Full TLX.Props.C01Capstone TLX.Reassembly
+
+/-- the data segments of direction `d` as the capture shows them to that direction's reassembler: (position in the capture,
+    sequence-number field, payload) -/
+def capSegs (d : Bool) : Nat → List CEv → List Seg
+  | _, [] => []
+  | n, .seg _ d' _ t :: rest =>
+    if t.payload ≠ [] ∧ d' = d then ⟨n, t.seq, t.payload⟩ :: capSegs d (n + 1) rest else capSegs d (n + 1) rest
+  | n, .foreign _ :: rest => capSegs d (n + 1) rest
+
+theorem capSegs_wire (d : Bool) (n : Nat) (evs : List CEv) : (capSegs d n evs).map Props.C05.wire = dirWires d evs := by
+  induction evs generalizing n with
+  | nil => rfl
+  | cons ev rest ih =>
+    cases ev with
+    | foreign e => simpa [capSegs, dirWires] using ih (n + 1)
+    | seg t d' fr tcp =>
+      simp only [capSegs, dirWires]
+      split
+      · simp [Props.C05.wire, ih (n + 1)]
+      · exact ih (n + 1)
+
+/-- the session's view of a direction is the capture's: `dirSegs` over the flow's packets = `capSegs` -/
+theorem dirSegs_capSegs (fl : Flow) (c : Bool) (hne : clientEp fl ≠ serverEp fl) (d : Bool) (evs : List CEv)
+    (hd : DescribedX fl c evs) (n : Nat) (info : Nat → Pipeline.Info)
+    (hinfo : ∀ i ev, evs[i]? = some ev → info (n + i) = infoOf ev.cap.us ev.cap.d) :
+    dirSegs info (serverEp fl) d (flowPkts fl n evs) = capSegs d n evs := by
+  induction evs generalizing n with
+  | nil => rfl
+  | cons ev rest ih =>
+    have hrest := ih (fun x hx => hd x (by simp [hx])) (n + 1) (fun i ev' h => by
+      have := hinfo (i + 1) ev' (by simpa using h)
+      rw [show n + 1 + i = n + (i + 1) by omega]; exact this)
+    have hev := hd ev (by simp)
+    cases ev with
+    | foreign e => simpa [flowPkts, capSegs] using hrest
+    | seg t d' fr tcp =>
+      have hev : IsSegX fl d' fr tcp := hev.1
+      have hi : info n = ⟨tcp.seq, (CEv.seg t d' fr tcp).cap.us, fr.srcMac, fr.dstMac, fl.v6⟩ := by
+        have := hinfo 0 _ rfl
+        rw [Nat.add_zero] at this
+        rw [this]
+        exact infoOf_segX fl d' fr tcp hev _
+      by_cases hp : tcp.payload = []
+      · simpa [flowPkts, capSegs, hp] using hrest
+      · simp only [flowPkts, hp, if_false, capSegs, ne_eq, not_false_eq_true, true_and]
+        simp only [dirSegs, List.filter_cons] at hrest ⊢
+        have hsrc : ((if d' then serverEp fl else clientEp fl) == serverEp fl) = d' := by
+          cases d' <;> simp [hne]
+        by_cases hdd : d' = d
+        · subst hdd
+          simp only [hsrc, beq_self_eq_true, if_true, List.map_cons, hi, hrest]
+        · have : (d' == d) = false := by simpa using hdd
+          simp only [hsrc, this, Bool.false_eq_true, if_false, hdd, hrest]
+
+theorem capInfo_hinfo (evs : List CEv) : ∀ i ev, evs[i]? = some ev →
+    capInfo (evs.map CEv.cap) (0 + i) = infoOf ev.cap.us ev.cap.d := by
+  intro i ev h
+  rw [Nat.zero_add]
+  exact Props.C02File.capInfo_at _ i _ (by rw [List.getElem?_map, h]; rfl)
+
+/-- **TCP delivery, C05's whole domain, stated on the capture**: per direction the (sequence number, data) pairs of the
+    connection's data segments are a delivery of the stream — ANY cut, exact duplicates, segments displaced by up to `k`
+    positions (any `k`), ANY initial sequence number (the sequence space may wrap anywhere inside the stream) — nothing is
+    handed on before the segment that starts the stream has been captured (`Props.C05.NoEarlyDelivery`; it fails exactly
+    when the FIRST data segment of a direction is overtaken by segments that are whole records: the open C05 finding
+    `reassembly_exact_counterexample`, a recorded limit), and the stream has at most 2^31 bytes -/
+def WiresDelivered (evs : List CEv) (streams : Bool → Bytes) : Prop :=
+  ∀ d, (∃ k isn, Spec.TlsFraming.Delivers k isn (streams d) (dirWires d evs) ∧
+      Props.C05.NoEarlyDelivery isn (capSegs d 0 evs)) ∧ (streams d).length ≤ 2 ^ 31
+
+/-- the simplest sufficient condition for `NoEarlyDelivery`: the first captured data segment of the direction is the one
+    that starts the stream (every LATER segment may be displaced) -/
+theorem noEarly_of_first (isn : Nat) (segs : List Seg) (h : ∀ s, segs.head? = some s → s.seq = isn % 2 ^ 32) :
+    Props.C05.NoEarlyDelivery isn segs := by
+  intro pre post hsplit hno
+  cases pre with
+  | nil => rfl
+  | cons s t => exact absurd (h s (by rw [hsplit]; rfl)) (hno s (List.mem_cons_self ..))
+
+theorem wiresDelivered_of_inOrder (evs : List CEv) (streams : Bool → Bytes) (h : WiresInOrder evs streams) :
+    WiresDelivered evs streams := by
+  intro d
+  obtain ⟨⟨isn, hio⟩, hl⟩ := h d
+  refine ⟨⟨0, isn, hio, noEarly_of_first isn _ ?_⟩, hl⟩
+  intro s hs
+  have hio' : Spec.TlsFraming.Delivers 0 isn (streams d) ((capSegs d 0 evs).map Props.C05.wire) := by
+    rw [capSegs_wire]; exact hio
+  exact Lemmas.Delivery.inorder_head hio' (Props.C05.wire s) (by rw [List.head?_map, hs]; rfl)
+
+/-- what the described capture gives the connection capstones: `DeliveredDisplaced` from the sender-side `WiresDelivered` -/
+theorem delivered_of_wires (fl : Flow) (hne : clientEp fl ≠ serverEp fl) (evs : List CEv) (o : Opts)
+    (hd : DescribedX fl o.checksumTest evs) (hsp : o.ports.contains (fl.serverPort : Int) = true)
+    (hcp : o.ports.contains (fl.clientPort : Int) = false) (p0 : Pkt) (rest : List Pkt)
+    (hfp : flowPkts fl 0 evs = p0 :: rest) (streams : Bool → Bytes) (hw : WiresDelivered evs streams) :
+    DeliveredDisplaced (capInfo (evs.map CEv.cap)) (sessionOf (evs.map CEv.cap) o p0 rest) streams := by
+  obtain ⟨_, _, hsrv, _, _⟩ := described_session_x fl hne evs o hd hsp hcp p0 rest hfp
+  intro dir
+  obtain ⟨⟨k, isn, hdel, hearly⟩, hl⟩ := hw dir
+  have hpk : (sessionOf (evs.map CEv.cap) o p0 rest).pkts = flowPkts fl 0 evs := by rw [hfp]; rfl
+  have hseg := dirSegs_capSegs fl o.checksumTest hne dir evs hd 0 (capInfo (evs.map CEv.cap)) (capInfo_hinfo evs)
+  refine ⟨⟨k, isn, ?_, ?_⟩, hl⟩
+  · rw [hsrv, hpk, hseg, capSegs_wire]; exact hdel
+  · rw [hsrv, hpk, hseg]; exact hearly
+
+/-! packet order ⇒ release order -/
+
+/-- **first flights alternate, stated on the capture order of the packets**: the capture is `A ++ B ++ C` where `A` holds no
+    data segment of the server and its client data segments deliver — in order: any cuts, exact duplicates, any ISN — exactly
+    the ClientHello record; `B` holds no data segment of the client and its server data segments deliver whole records
+    `recsB`, at least one (the ServerHello); `C` is arbitrary. Foreign packets may sit anywhere. I.e. the ClientHello is
+    complete before the server's first data segment is captured, and the server's first flight ends on a record boundary
+    before the client's next data segment. -/
+structure FlightsFirst (evs : List CEv) (chRec : Bytes) (recsB : List Bytes) : Prop where
+  split : ∃ A B C, evs = A ++ B ++ C ∧ dirWires true A = [] ∧ dirWires false B = [] ∧
+    (∃ isn, Spec.TlsFraming.InOrder isn chRec (dirWires false A)) ∧
+    (∃ isn, Spec.TlsFraming.InOrder isn recsB.flatten (dirWires true B))
+  wholeA : WholeRecord chRec
+  wholeB : ∀ r ∈ recsB, WholeRecord r
+  lenA : chRec.length ≤ 2 ^ 31
+  lenB : recsB.flatten.length ≤ 2 ^ 31
+  neB : recsB ≠ []
+
+theorem flowPkts_append (fl : Flow) (A B : List CEv) (n : Nat) :
+    flowPkts fl n (A ++ B) = flowPkts fl n A ++ flowPkts fl (n + A.length) B := by
+  induction A generalizing n with
+  | nil => simp [flowPkts]
+  | cons ev rest ih =>
+    have e : n + (ev :: rest).length = n + 1 + rest.length := by simp only [List.length_cons]; omega
+    cases ev with
+    | foreign e' => simp only [List.cons_append, flowPkts, ih (n + 1), e]
+    | seg t d fr tcp =>
+      simp only [List.cons_append, flowPkts, ih (n + 1), e]
+      split <;> simp
+
+theorem flowPkts_dir (fl : Flow) (hne : clientEp fl ≠ serverEp fl) (d : Bool) (A : List CEv) (h : dirWires (!d) A = [])
+    (n : Nat) : ∀ p ∈ flowPkts fl n A, (p.src == serverEp fl) = d := by
+  induction A generalizing n with
+  | nil => intro p hp; cases hp
+  | cons ev rest ih =>
+    cases ev with
+    | foreign e => exact ih (by simpa [dirWires] using h) (n + 1)
+    | seg t d' fr tcp =>
+      simp only [dirWires] at h
+      intro p hp
+      simp only [flowPkts] at hp
+      by_cases hpl : tcp.payload = []
+      · rw [if_pos hpl] at hp
+        rw [if_neg (by simp [hpl])] at h
+        exact ih h (n + 1) p hp
+      · rw [if_neg hpl] at hp
+        by_cases hdd : d' = !d
+        · rw [if_pos ⟨hpl, hdd⟩] at h; cases h
+        · rw [if_neg (by simp [hpl, hdd])] at h
+          rcases List.mem_cons.mp hp with rfl | hp
+          · have : d' = d := by cases d <;> cases d' <;> simp_all
+            subst this
+            cases d' <;> simp [hne]
+          · exact ih h (n + 1) p hp
+
+/-- **packet order ⇒ `FirstFlights`** for the session object of the described capture -/
+theorem firstFlights_of_capture (fl : Flow) (hne : clientEp fl ≠ serverEp fl) (evs : List CEv) (o : Opts)
+    (hd : DescribedX fl o.checksumTest evs) (hsp : o.ports.contains (fl.serverPort : Int) = true)
+    (hcp : o.ports.contains (fl.clientPort : Int) = false) (p0 : Pkt) (rest : List Pkt)
+    (hfp : flowPkts fl 0 evs = p0 :: rest) (chRec : Bytes) (recsB : List Bytes) (h : FlightsFirst evs chRec recsB) :
+    FirstFlights (capInfo (evs.map CEv.cap)) (sessionOf (evs.map CEv.cap) o p0 rest) [chRec] recsB := by
+  obtain ⟨_, _, hsrv, _, _⟩ := described_session_x fl hne evs o hd hsp hcp p0 rest hfp
+  obtain ⟨A, B, C, hev, hA, hB, ⟨isnA, hiA⟩, ⟨isnB, hiB⟩⟩ := h.split
+  have hpk : (sessionOf (evs.map CEv.cap) o p0 rest).pkts = flowPkts fl 0 evs := by rw [hfp]; rfl
+  have hinfo := capInfo_hinfo evs
+  have hdA : DescribedX fl o.checksumTest A := fun x hx => hd x (by rw [hev]; simp [hx])
+  have hdB : DescribedX fl o.checksumTest B := fun x hx => hd x (by rw [hev]; simp [hx])
+  have hsA := dirSegs_capSegs fl o.checksumTest hne false A hdA 0 (capInfo (evs.map CEv.cap)) (fun i ev hi => by
+    apply hinfo i ev
+    rw [hev, List.append_assoc, List.getElem?_append_left (List.getElem?_eq_some_iff.mp hi).1]; exact hi)
+  have hsB := dirSegs_capSegs fl o.checksumTest hne true B hdB A.length (capInfo (evs.map CEv.cap)) (fun i ev hi => by
+    have := hinfo (A.length + i) ev (by
+      rw [hev, List.append_assoc, List.getElem?_append_right (by omega),
+        List.getElem?_append_left (by have := (List.getElem?_eq_some_iff.mp hi).1; omega)]
+      rw [show A.length + i - A.length = i by omega]; exact hi)
+    rw [Nat.zero_add] at this; exact this)
+  refine ⟨⟨flowPkts fl 0 A, flowPkts fl A.length B, flowPkts fl (A.length + B.length) C, ?_, ?_, ?_, ⟨isnA, ?_⟩, ⟨isnB, ?_⟩⟩,
+    ?_, h.wholeB, ?_, h.lenB, h.neB⟩
+  · rw [hpk, hev, flowPkts_append, flowPkts_append, Nat.zero_add]
+    simp [List.length_append]
+  · rw [hsrv]; exact flowPkts_dir fl hne false A (by simpa using hA) 0
+  · rw [hsrv]; exact flowPkts_dir fl hne true B (by simpa using hB) A.length
+  · rw [hsrv, hsA, capSegs_wire]; simpa using hiA
+  · rw [hsrv, hsB, capSegs_wire]; exact hiB
+  · intro r hr; simp only [List.mem_singleton] at hr; subst hr; exact h.wholeA
+  · simpa using h.lenA
+
+end Capture
 
 end TLX.Lemmas.C01All
